@@ -16,8 +16,9 @@ import (
 // Delegation: ADD_NETWORK_DELEGATE, NETWORK_UNDELEGATE, reward withdraw and
 // reinvest by several delegators, several operations per block and delegator.
 type Delegation struct {
-	Drain bool // every delegator leaves the pool while a reward withdrawal is pending
-	n     int
+	Drain     bool // every delegator leaves the pool while a reward withdrawal is pending
+	lastWhole string
+	n         int
 }
 
 func (d *Delegation) Name() string { return "delegation" }
@@ -150,6 +151,29 @@ func (d *Delegation) Plan(c *Ctx) []hist.TxSpec {
 			}
 		}
 		return out
+	}
+	if !d.Drain && len(us) > 3 {
+		// a delegator leaves the pool (its rewards stop accruing), then withdraws exactly everything that has
+		// accrued, then asks for the same amount again
+		switch d.n {
+		case 9:
+			if act := ActiveDeleg(c.S, us[3]); act.Sign() > 0 {
+				undel(us[3], act.String(), "undelegate exactly everything (the rewards stop accruing)")
+			}
+			return out
+		case 10, 11:
+			if ActiveDeleg(c.S, us[3]).Sign() == 0 {
+				if b := DelegRewardBalance(c.S, us[3]); b.Sign() > 0 {
+					wd(us[3], b.String(), "withdraw exactly the whole accrued reward balance")
+				} else if d.n == 11 && d.lastWhole != "" {
+					wd(us[3], d.lastWhole, "withdraw the same amount again after everything was withdrawn (must fail)")
+				}
+				if b := DelegRewardBalance(c.S, us[3]); b.Sign() > 0 {
+					d.lastWhole = b.String()
+				}
+			}
+			return out
+		}
 	}
 	if d.n < 4 || c.R.Intn(2) == 0 {
 		return out
